@@ -16,6 +16,7 @@ type serEvent struct {
 	What  string // what is encoded: len(name), name, elem(positions) ...
 	Inner []serEvent
 	Pos   token.Pos
+	id    int
 }
 
 func (e serEvent) String() string {
@@ -51,8 +52,19 @@ func (c *Ctx) progField(e ast.Expr) string {
 	return parts[len(parts)-1]
 }
 
-// dumpEvents extracts the ordered write events of Dump.
-func (c *Ctx) dumpEvents(fd *ast.FuncDecl) (events []serEvent, problems []string) {
+// dumpEvents / loadEvents: the ordered write / read events of Dump / Load, from the interpreted model (sermodel.go).
+func (c *Ctx) dumpEvents(fd *ast.FuncDecl) ([]serEvent, []string) {
+	m := c.serModelOf(fd, false)
+	return m.Events, m.Problems
+}
+
+func (c *Ctx) loadEvents(fd *ast.FuncDecl) ([]serEvent, []string) {
+	m := c.serModelOf(fd, true)
+	return m.Events, m.Problems
+}
+
+// dumpEventsAST is the earlier syntactic extraction (kept for cross-checking under DBGSER).
+func (c *Ctx) dumpEventsAST(fd *ast.FuncDecl) (events []serEvent, problems []string) {
 	var wobj types.Object
 	pending := map[types.Object]serEvent{} // count variable -> what was encoded into the scratch buffer
 	describe := func(e ast.Expr, elem map[types.Object]string) string {
@@ -265,7 +277,7 @@ func (c *Ctx) dumpEvents(fd *ast.FuncDecl) (events []serEvent, problems []string
 }
 
 // loadEvents extracts the ordered read events of Load.
-func (c *Ctx) loadEvents(fd *ast.FuncDecl) (events []serEvent, problems []string) {
+func (c *Ctx) loadEventsAST(fd *ast.FuncDecl) (events []serEvent, problems []string) {
 	var robj types.Object
 	counts := map[types.Object]bool{}  // variables holding the last decoded uvarint
 	raws := map[types.Object]string{}  // byte slices read with a known count
